@@ -44,14 +44,14 @@ def setters_ob(name, ks=-1, ku=-1, kh=-1, kx=-1, kp=-1, kq=-1, kf=-1, port=None,
 def obligations(tier):
     q = tier == "quick"
     RT, SP = ["VP_ONLY_ROUNDTRIP"], ["VP_ONLY_SPLIT"]
-    ns, nr, na, nu = (6, 4, 4, 3) if q else (8, 7, 7, 6)
+    ns, nr, na, nu = (5, 4, 4, 3) if q else (7, 6, 6, 5)
     T = 900 if q else 2400
     obs = [
-        parse_ob("split_any", ns, extra=SP + ["VP_WIT_SCHEME"], timeout=T,
-                 desc="RFC 3986 components + completeness: any string <= %d bytes, all 8 flag combinations" % ns),
-        parse_ob("split_auth", ns, prefix="//", extra=SP + ["VP_WIT_PORT", "VP_WIT_V6"], timeout=T,
+        parse_ob("split_any", ns + 1, extra=SP + ["VP_WIT_SCHEME"], timeout=T,
+                 desc="RFC 3986 components + completeness: any string <= %d bytes, all 8 flag combinations" % (ns + 1)),
+        parse_ob("split_auth", ns, prefix="//", extra=SP + ["VP_WIT_PORT"] + (["VP_WIT_V6"] if ns >= 6 else []), timeout=T,
                  desc="RFC 3986 components + completeness: '//' + any string <= %d bytes, all 8 flag combinations" % ns),
-        parse_ob("rt_any", nr, extra=RT + ["VP_WIT_SCHEME"], timeout=T,
+        parse_ob("rt_any", nr, extra=RT + (["VP_WIT_SCHEME"] if nr >= 6 else []), timeout=T,
                  desc="parse-join-parse: any string <= %d bytes, all 8 flag combinations" % nr),
         parse_ob("rt_auth", na, prefix="//", extra=RT + ["VP_WIT_PORT"], timeout=T,
                  desc="parse-join-parse: '//' + any string <= %d bytes, all 8 flag combinations" % na),
@@ -60,8 +60,24 @@ def obligations(tier):
         setters_ob("set_noauth", ks=1, kp=3, extra=["VP_WIT_REL"], timeout=T, desc="setters+join, no authority: scheme<=1, path<=3 bytes, all flags"),
         setters_ob("set_qf", kp=1, kq=1, kf=1, extra=["VP_WIT_REL"], timeout=T, desc="setters+join: path<=1 query<=1 fragment<=1, all flags"),
         setters_ob("set_nohost", ku=1, port=(-2, 9), kp=1, timeout=T, desc="setters+join, userinfo/port without host: userinfo<=1, port in [-2,9], path<=1"),
-        setters_ob("set_host", ku=1, kh=2, port=(-2, 99), kp=2, extra=["VP_WIT_FULL"], timeout=T, desc="setters+join: userinfo<=1 host<=2 port in [-2,99] path<=2, all flags"),
-        setters_ob("set_unix", ku=1, kh=0, kx=2, port=(-1, 0), kp=2, flags=8, timeout=T, desc="setters+join, UNIX_SOCKET: userinfo<=1 host<=0 socket<=2 port in [-1,0] path<=2"),
         setters_ob("set_bigport", kh=1, port=(65534, 65537), timeout=T, desc="setters+join: host<=1, port in [65534,65537]"),
     ]
+    if q:
+        obs += [
+            setters_ob("set_host", ku=1, kh=1, port=(-2, 9), kp=2, extra=["VP_WIT_FULL"], timeout=T, desc="setters+join: userinfo<=1 host<=1 port in [-2,9] path<=2, all flags"),
+            setters_ob("set_unix", ku=0, kh=0, kx=1, port=(-1, 0), kp=1, flags=8, timeout=T, desc="setters+join, UNIX_SOCKET: userinfo<=0 host<=0 socket<=1 port in [-1,0] path<=1"),
+        ]
+    else:
+        obs += [
+            parse_ob("unix_ui", 3, prefix="//u@unix:", flags=8, extra=["VP_WIT_UNIX", "VP_WIT_UNIX_UI"], timeout=T,
+                     desc="components + parse-join-parse: '//u@unix:' + any string <= 3 bytes, UNIX_SOCKET"),
+            parse_ob("split_v6", 4, prefix="//[", extra=SP + ["VP_WIT_V6"], timeout=T,
+                     desc="RFC 3986 components + completeness: '//[' + any string <= 4 bytes (IP-literals), all 8 flag combinations"),
+            parse_ob("rt_v6", 4, prefix="//[", extra=RT + ["VP_WIT_V6"], timeout=T,
+                     desc="parse-join-parse: '//[' + any string <= 4 bytes (IP-literals, HOST_STRIP_BRACKETS), all 8 flag combinations"),
+            setters_ob("set_host", ku=1, kh=2, port=(-2, 99), kp=2, extra=["VP_WIT_FULL"], timeout=T, desc="setters+join: userinfo<=1 host<=2 port in [-2,99] path<=2, all flags"),
+            setters_ob("set_unix", ku=1, kh=0, kx=2, port=(-1, 0), kp=2, flags=8, timeout=T, desc="setters+join, UNIX_SOCKET: userinfo<=1 host<=0 socket<=2 port in [-1,0] path<=2"),
+            setters_ob("set_v6", kh=4, port=(-1, 1), kp=1, extra=["VP_WIT_V6"], flags=4, timeout=T, desc="setters+join, HOST_STRIP_BRACKETS: host<=4 (IP-literals) port in [-1,1] path<=1"),
+            dict(parse_ob("split_any_ndebug", ns, extra=SP, timeout=T, desc="NDEBUG twin of split_any at <= %d bytes" % ns), ndebug=True),
+        ]
     return obs
